@@ -374,7 +374,7 @@ def p_c03(facts, rep, tier):
         "starts (O1); hash-table writes, WAL truncation, rollback-log unlink/truncation and the index swap can start only after Meta::write "
         "returned Ok (O3); Meta::write is one page write at offset 0 followed by a checked fsync, called only from Sync::sync and create (O4); "
         "WAL redo in recover is confined to the branch where the WAL's sequence number equals the meta page's, which derives from Meta::read (O7); "
-        "the WAL is tagged with the very value stored in the meta page and the in-memory counter advances only after the swap (O8); in the sync writer and in the WAL redo every mutation of the occupancy map is followed on every path by queueing that map page for writeout (O12); every change the post-meta hash-table writeout will make is first recorded in this sync's WAL blob: set_tombstone is paired with a Clear entry and set_full / a queued data page with an Update entry for the same bucket, between reset(sync_seqn) and finalize() (O13); the redo loop of recover dispatches on the entry kind and no arm reaches the next iteration without re-applying its entry - Clear through set_tombstone, Update through a write of the hash-table file (O14); in the post-meta phase the WAL is truncated only after the result of the hash-table writeout has been checked (O15). "
+        "the WAL is tagged with the very value stored in the meta page and the in-memory counter advances only after the swap (O8); in the sync writer and in the WAL redo every mutation of the occupancy map is followed on every path by queueing that map page for writeout (O12); every change the post-meta hash-table writeout will make is first recorded in this sync's WAL blob: set_tombstone is paired with a Clear entry and set_full / a queued data page with an Update entry for the same bucket, between reset(sync_seqn) and finalize() (O13); the redo loop of recover dispatches on the entry kind and no arm reaches the next iteration without re-applying its entry - Clear through set_tombstone, Update through a write of the hash-table file (O14); in the post-meta phase the WAL is truncated only after the result of the hash-table writeout has been checked (O15); the condition for re-marking a bucket in the redo looks at the page identity (O16); every field of the Update entry is applied to the page buffer on every path to the page write (O18). "
         "Decides the before/after-the-barrier structure for all histories and crash points; data-level recovery correctness is not decided."
     )
     ctx = sync_ctx(facts)
